@@ -39,6 +39,7 @@ class Result:
 def run_path(prog, harness, dec, res, opts):
     it = Interp(prog, dec, reuse=opts.get('reuse_solver', True))
     it.overflow_checks = opts.get('overflow_checks', True)
+    it.paranoid = opts.get('paranoid', False)
     if 'step_limit' in opts: it.STEP_LIMIT = opts['step_limit']
     res.paths += 1
     try:
@@ -99,6 +100,8 @@ def explore(prog, harness, nproc=None, opts=None, frontier=None, time_budget=Non
     recorded in Result.unsupported and must make the caller exit 2."""
     opts = opts or {}
     nproc = nproc or int(os.environ.get('VERIF_JOBS', '0')) or min(16, os.cpu_count() or 4)
+    from . import interp as _interp
+    _interp._SHARED.pop(id(prog), None)      # the reused solver's scope trail is only meaningful within ONE harness
     t0 = time.time()
     total = Result()
     work = collections.deque([[]])
